@@ -177,13 +177,13 @@ func C07(p *core.Program, r *core.Report) {
 	for _, c := range ld {
 		conds := core.DominatingConds(c.Block())
 		call, ok := callGuard(conds, routingPkg+".Core.HasEndpoint", true)
-		ok = ok && pathEndsWith(core.CallArgs(call)[0], "PrimaryBlock", "Destination")
+		ok = ok && pathEndsWith(core.Arg(call, 0), "PrimaryBlock", "Destination")
 		r.Check(ok, "deliver-xor-forward/"+fname(disp)+"/localDelivery", "local delivery only if HasEndpoint(bundle.Destination)", p.Pos(c.Pos()), "", "guard missing; "+condStrings(conds))
 	}
 	for _, c := range fw {
 		conds := core.DominatingConds(c.Block())
 		call, ok := callGuard(conds, routingPkg+".Core.HasEndpoint", false)
-		ok = ok && pathEndsWith(core.CallArgs(call)[0], "PrimaryBlock", "Destination")
+		ok = ok && pathEndsWith(core.Arg(call, 0), "PrimaryBlock", "Destination")
 		r.Check(ok, "deliver-xor-forward/"+fname(disp)+"/forward", "a bundle for a local endpoint is not transmitted to peers: forward only if !HasEndpoint(bundle.Destination)", p.Pos(c.Pos()), "", "guard missing; "+condStrings(conds))
 	}
 	lfn := p.Func(routingPkg, "Core", "localDelivery")
@@ -266,7 +266,7 @@ func checkRestReceive(p *core.Program, r *core.Report, rbm *ssa.Function) {
 		}
 		r.Check(len(l.EarlyExits()) == 0, key, "the loop over the matching clients has no break/return", p.Pos(st.Pos()), "", "early exit from the loop body")
 		// the stored slice ends with the message's bundle
-		okVal := core.DependsOn(core.CallArgs(st)[1], func(v ssa.Value) bool {
+		okVal := core.DependsOn(core.Arg(st, 1), func(v ssa.Value) bool {
 			return pathEndsWith(v, "Bundle") && rootIsParam(v, rbm.Params[1])
 		})
 		r.Check(okVal, "fan-out/"+fname(rbm)+"/stores-bundle", "what is put in the mailbox contains the delivered bundle", p.Pos(st.Pos()), "", "stored value does not depend on msg.Bundle")
@@ -411,7 +411,7 @@ func checkMailboxAtomicity(p *core.Program, r *core.Report) {
 		}
 		bad := ""
 		for _, c := range core.CallsTo(fn, "sync.Map.Store") {
-			if isRestAgentField(core.CallRecv(c)) && core.DependsOn(core.CallArgs(c)[1], fromLoad) {
+			if isRestAgentField(core.CallRecv(c)) && core.DependsOn(core.Arg(c, 1), fromLoad) {
 				bad = "the slice handed to the caller is (a reslice of) what is stored back into the mailbox at " + p.Pos(c.Pos()) + ": a later delivery appends into the backing array the caller still reads"
 			}
 		}
